@@ -1,5 +1,5 @@
 SCHK = "verifharness/checks/storagechk"
-WIP["C24"] = dict(
+CHECKS["C24"] = dict(
     level="exploration", engine="E1",
     technique="stateful (model-based) property-based testing on the full-chain simulator: generated free-storage markers (forged, replayed, over-limit, wrong recipient, rotated keys) vs a model of redeemed nonces and totals per assigner",
     level_text="Generated histories register and re-register free-storage assigners (limits, key rotation) and redeem generated markers across two assigners on the real chain; an accepted request must carry a signature of the currently registered key over the marker as sent, come from its recipient, use a nonce never granted before, respect the individual and total limits read from the state, debit the contract owner's wallet by exactly the marker's tokens, create the recipient's allocation and record nonce and total; a refused request leaves record and balances untouched.",
